@@ -11,6 +11,12 @@ use sha2::{Digest, Sha256};
 #[derive(Clone, Default)]
 pub struct Arm {
     pub c02: bool,
+    /// C12 end to end: the plans as the hub applies them (registry answer -> delegate messages, delegations -> undelegate messages)
+    pub c12: bool,
+    /// C15 on the real pipeline: per-holder accrual of every UpdateGlobalIndex that runs through hub, dispatcher and reward contract
+    pub c15: bool,
+    /// C17 end to end: the split the hub asks the dispatcher for follows the booked stake
+    pub c17: bool,
     pub c03: bool,
     pub c04: bool,
     pub c06: bool,
@@ -196,6 +202,18 @@ impl Scenario for HubCore {
                 "one_val" => {
                     cfg.registered = vec!["val1"];
                 }
+                "bsei_only" => prefix = vec![bond(ALICE, 1000 * k)],
+                "stsei_only" => prefix = vec![bond_st(BOB, 777 * k)],
+                "pending_rewards" => {
+                    // alice has accrued rewards that a balance change moved into her pending rewards
+                    prefix.push(accrue("val2", KUSD, 400 * k));
+                    prefix.push(update_index(UPDATER));
+                    prefix.push(bond(ALICE, 100 * k));
+                }
+                "uneven_vals" => {
+                    // a validator added after stake exists: the registered set is far from even
+                    prefix = vec![bond(ALICE, 30 * k), bond_st(BOB, 31 * k), add_validator(OWNER, "val3")];
+                }
                 "carol_too" => {
                     prefix.push(bond(CAROL, 10 * k));
                     prefix.push(bond_st(CAROL, 10 * k));
@@ -245,7 +263,7 @@ impl Scenario for HubCore {
             if self.with_withdraw {
                 v.push(withdraw(u));
             }
-            if self.arm.c09 {
+            if self.arm.c09 || self.arm.c19 {
                 v.push(claim(u, None));
             }
         }
@@ -315,6 +333,16 @@ impl Scenario for HubCore {
         }
         if self.arm.c09 {
             c09_pair(pre, a, out, post, cx);
+            c09_epoch_step(pre, po, a, out, qo, cx);
+        }
+        if self.arm.c12 {
+            c12_step(pre, po, a, out, qo, cx);
+        }
+        if self.arm.c17 {
+            c17_step(pre, po, a, out, post, cx);
+        }
+        if self.arm.c15 {
+            c15_step(pre, po, a, out, post, cx);
         }
         g2
     }
@@ -953,27 +981,8 @@ fn c19_step(pre: &Chain, po: &HubObs, a: &Action, out: &Outcome, post: &Chain, q
     if (qo.delegated as i128 - po.delegated as i128) != rebonded as i128 {
         cx.viol("C19.rebond", "delegated stake did not grow by exactly the re-bonded amount", format!("{}: {} -> {} rebonded {}", a.label, po.delegated, qo.delegated, rebonded));
     }
-    // the split follows the booked stake of the two pools (as the State query reports them before the update)
-    {
-        let price = pre.price_dec();
-        let inv = cosmwasm_std::Fraction::inv(&price).unwrap_or(cosmwasm_std::Decimal::zero());
-        let pu = pend.get(USEI).copied().unwrap_or(0) + pre.bal(DISP, USEI);
-        let pk = pend.get(KUSD).copied().unwrap_or(0) + pre.bal(DISP, KUSD);
-        // the booked stake as stored and as the State query recognises it (they differ only while a slash is
-        // unrecognised, and then only by the rounding of the pro-rata recognition): either weighting is accepted
-        let (st, b) = (po.state.total_bond_stsei_amount.u128(), po.state.total_bond_bsei_amount.u128());
-        let (st2, b2) = (po.stored.total_bond_stsei_amount.u128(), po.stored.total_bond_bsei_amount.u128());
-        if st + b > 0 && st2 + b2 > 0 && !via_registry {
-            let total_in_usei = pu + mul_dec(pk, inv);
-            let s1 = muldiv(total_in_usei, st, st + b);
-            let s2 = muldiv(total_in_usei, st2, st2 + b2);
-            let got = ku + rebonded;
-            let tol = 3 + mul_dec(1, inv) + 1;
-            cx.count("c19_split_checked");
-            if got + tol < s1.min(s2) || got > s1.max(s2) + tol {
-                cx.viol("C19.split_by_stake", "stSei-side share of the rewards differs from total x stSei bonded / total bonded", format!("{}: pending {} usei {} kusd, pools st {} b {} (stored {} {}): stSei side got {} expected {}..{} (tolerance {})", a.label, pu, pk, st, b, st2, b2, got, s1.min(s2), s1.max(s2), tol));
-            }
-        }
+    if !via_registry {
+        split_by_stake(pre, po, a, &pend, ku + rebonded, "C19.split_by_stake", cx);
     }
     // stSei rate rises by exactly rebonded / (supply + pending); bSei rate untouched
     let st_pre = po.state.total_bond_stsei_amount.u128();
@@ -989,7 +998,7 @@ fn c19_step(pre: &Chain, po: &HubObs, a: &Action, out: &Outcome, post: &Chain, q
     let r1 = crate::reward::RObs::new(post);
     if r0.supply > 0 {
         let grow = r1.total_accrued_fp() - r0.total_accrued_fp();
-        let undistributed = cosmwasm_std::Uint256::from(r0.bank - r0.state.prev_reward_balance.u128());
+        let undistributed = cosmwasm_std::Uint256::from(r0.bank.saturating_sub(r0.state.prev_reward_balance.u128()));
         let hi = (cosmwasm_std::Uint256::from(to_reward) + undistributed) * cosmwasm_std::Uint256::from(ONE);
         let dust = cosmwasm_std::Uint256::from(r0.supply);
         if to_reward > 0 {
@@ -1004,6 +1013,157 @@ fn c19_step(pre: &Chain, po: &HubObs, a: &Action, out: &Outcome, post: &Chain, q
         let claimable = r1.total_accrued_fp();
         if held > claimable + cosmwasm_std::Uint256::from(64u128 * ONE) {
             cx.viol("C19.holders_accrue", "reward coins in the reward contract are claimable by nobody after an index update", format!("{}: held {} claimable {} (1e-18 units)", a.label, held, claimable));
+        }
+    }
+}
+
+/// the split follows the booked stake of the two pools (as the State query reports them before the update)
+fn split_by_stake(pre: &Chain, po: &HubObs, a: &Action, pend: &std::collections::BTreeMap<String, u128>, got: u128, oracle: &str, cx: &mut Cx) {
+    let price = pre.price_dec();
+    let inv = cosmwasm_std::Fraction::inv(&price).unwrap_or(cosmwasm_std::Decimal::zero());
+    let pu = pend.get(USEI).copied().unwrap_or(0) + pre.bal(DISP, USEI);
+    let pk = pend.get(KUSD).copied().unwrap_or(0) + pre.bal(DISP, KUSD);
+    // the booked stake as stored and as the State query recognises it (they differ only while a slash is
+    // unrecognised, and then only by the rounding of the pro-rata recognition): either weighting is accepted
+    let (st, b) = (po.state.total_bond_stsei_amount.u128(), po.state.total_bond_bsei_amount.u128());
+    let (st2, b2) = (po.stored.total_bond_stsei_amount.u128(), po.stored.total_bond_bsei_amount.u128());
+    if st + b > 0 && st2 + b2 > 0 {
+        let total_in_usei = pu + mul_dec(pk, inv);
+        let s1 = muldiv(total_in_usei, st, st + b);
+        let s2 = muldiv(total_in_usei, st2, st2 + b2);
+        let tol = 3 + mul_dec(1, inv) + 1;
+        cx.count("c19_split_checked");
+        if st * (po.st_claims()) != 0 && st != po.st_claims() {
+            cx.count("c19_split_with_stsei_rate_off_par");
+        }
+        if got + tol < s1.min(s2) || got > s1.max(s2) + tol {
+            cx.viol(oracle, "stSei-side share of the rewards differs from total x stSei bonded / total bonded", format!("{}: pending {} usei {} kusd, pools st {} b {} (stored {} {}): stSei side got {} expected {}..{} (tolerance {})", a.label, pu, pk, st, b, st2, b2, got, s1.min(s2), s1.max(s2), tol));
+        }
+    }
+}
+
+/// C17 seen from the hub: the stSei side (keeper fee included) of a complete UpdateGlobalIndex
+fn c17_step(pre: &Chain, po: &HubObs, a: &Action, out: &Outcome, post: &Chain, cx: &mut Cx) {
+    if !(a.is(HUB, "update_global_index") && a.sender() == UPDATER) || !out.ok() || po.delegated == 0 || po.books() == 0 {
+        return;
+    }
+    let fx = out.fx();
+    let pend = pre.pending_total(HUB);
+    let ku = post.bal(KEEPER, USEI) - pre.bal(KEEPER, USEI);
+    let rebonded: u128 = fx
+        .iter()
+        .map(|e| match e {
+            Fx::Exec { contract, msg, funds, .. } if contract == HUB && msg.get("bond_rewards").is_some() => funds.iter().filter(|(d, _)| d == USEI).map(|(_, a)| *a).sum(),
+            _ => 0,
+        })
+        .sum();
+    cx.trigger("c17_hub_split_checked");
+    cx.validated();
+    split_by_stake(pre, po, a, &pend, ku + rebonded, "C17.split_by_stake", cx);
+}
+
+/// C15 on the real pipeline: an UpdateGlobalIndex that delivers D reward coins to the reward contract lets every holder
+/// accrue balance x D / supply (balances as the bSei token reports them before the update), within sub-unit rounding
+fn c15_step(pre: &Chain, po: &HubObs, a: &Action, out: &Outcome, post: &Chain, cx: &mut Cx) {
+    if !(a.is(HUB, "update_global_index") && a.sender() == UPDATER) || !out.ok() || po.delegated == 0 || po.books() == 0 {
+        return;
+    }
+    let r0 = crate::reward::RObs::new(pre);
+    let r1 = crate::reward::RObs::new(post);
+    if r0.supply == 0 {
+        return;
+    }
+    let to_reward = post.bal(REWARD, KUSD) - pre.bal(REWARD, KUSD);
+    let undistributed = r0.bank.saturating_sub(r0.state.prev_reward_balance.u128());
+    let d = cosmwasm_std::Uint256::from(to_reward + undistributed);
+    cx.trigger("c15_pipeline_update_checked");
+    cx.validated();
+    if to_reward > 0 {
+        cx.count("c15_pipeline_update_with_delivery");
+    }
+    let tol = cosmwasm_std::Uint256::from(r0.supply) + cosmwasm_std::Uint256::from(1u128);
+    for (u, bal) in &r0.token_bal {
+        let exp = cosmwasm_std::Uint256::from(*bal) * d * cosmwasm_std::Uint256::from(ONE) / cosmwasm_std::Uint256::from(r0.supply);
+        let (x0, x1) = (r0.accrued_fp(u), r1.accrued_fp(u));
+        let got = if x1 >= x0 { x1 - x0 } else { cosmwasm_std::Uint256::zero() };
+        if x1 < x0 || got > exp + tol || got + tol < exp {
+            cx.viol("C15.pipeline_accrual", "a holder's accrual from one index update differs from balance x delivered / supply", format!("{}: {} holds {} of {}; delivered {} (+{} undistributed); accrued {} -> {} expected growth {} (1e-18 units)", a.label, u, bal, r0.supply, to_reward, undistributed, x0, x1, exp));
+        }
+    }
+}
+
+// =============================================================================================
+// C12 end to end — the plans as the hub turns them into staking messages
+
+fn c12_step(pre: &Chain, po: &HubObs, a: &Action, out: &Outcome, qo: &HubObs, cx: &mut Cx) {
+    if !out.ok() || out.is_env {
+        return;
+    }
+    let fx = out.fx();
+    if a.is(HUB, "bond") || a.is(HUB, "bond_for_st_sei") {
+        // the list the plan is made for: the registered validators with the hub's delegations on them
+        let n = po.registry.len() as u128;
+        if n == 0 {
+            return;
+        }
+        let pay = a.funds_of(USEI);
+        let d: Vec<u128> = po.registry.iter().map(|v| pre.delegation(HUB, v)).collect();
+        let total: u128 = d.iter().sum::<u128>() + pay;
+        let ceil_share = (total + n - 1) / n;
+        cx.trigger("c12_hub_delegation_plan_checked");
+        cx.validated();
+        if d.iter().any(|x| *x * n > total) {
+            cx.count("c12_hub_bond_with_a_validator_above_the_share");
+        }
+        let mut sum = 0u128;
+        for (i, v) in po.registry.iter().enumerate() {
+            let got: u128 = fx.iter().map(|e| match e { Fx::Delegate { val, amt, delegator } if delegator == HUB && val == v => *amt, _ => 0 }).sum();
+            sum += got;
+            if got > 0 && d[i] * n > total {
+                cx.viol("C12.delegate_above_share", "validator above the even share received stake", format!("{}: {} holds {} got {} total {} over {} validators", a.label, v, d[i], got, total, n));
+            }
+            if got > 0 && d[i] + got > ceil_share {
+                cx.viol("C12.delegate_lift", "validator lifted above the even share rounded up", format!("{}: {} holds {} got {} ceil share {}", a.label, v, d[i], got, ceil_share));
+            }
+        }
+        let all = fx_sum_delegate(fx);
+        if sum != pay || all != pay {
+            cx.viol("C12.delegate_conserve", "delegation plan does not distribute exactly the whole amount", format!("{}: payment {} delegated {} (to registered validators {})", a.label, pay, all, sum));
+        }
+        let _ = qo;
+        return;
+    }
+    let is_unbond = a.hub_hook().map(|h| h.0 == "unbond").unwrap_or(false);
+    if is_unbond && qo.batch.id != po.batch.id {
+        // a batch was closed: the amount to remove is the requests valued at the rates recorded for the batch
+        let h = match qo.hist(po.batch.id) {
+            Some(h) => h,
+            None => return,
+        };
+        let amount = mul_dec(h.stsei_amount.u128(), h.stsei_applied_exchange_rate) + mul_dec(h.bsei_amount.u128(), h.bsei_applied_exchange_rate);
+        // the list the plan is made for: every delegation of the hub
+        let vals: Vec<String> = pre.deleg.keys().filter(|(d, _)| d == HUB).map(|(_, v)| v.clone()).collect();
+        let n = vals.len() as u128;
+        let d: Vec<u128> = vals.iter().map(|v| pre.delegation(HUB, v)).collect();
+        let sum: u128 = d.iter().sum();
+        if n == 0 || amount > sum {
+            return;
+        }
+        cx.trigger("c12_hub_undelegation_plan_checked");
+        cx.validated();
+        let floor_share = (sum - amount) / n;
+        let mut removed = 0u128;
+        for (i, v) in vals.iter().enumerate() {
+            let p: u128 = fx.iter().map(|e| match e { Fx::Undelegate { val, amt, .. } if val == v => *amt, _ => 0 }).sum();
+            removed += p;
+            if p > d[i] {
+                cx.viol("C12.undelegate_overdraw", "more undelegated from a validator than it holds", format!("{}: {} holds {} plan {}", a.label, v, d[i], p));
+            } else if d[i] - p < d[i].min(floor_share) {
+                cx.viol("C12.undelegate_below_share", "validator pushed below the even share rounded down", format!("{}: {} holds {} plan {} floor share {}", a.label, v, d[i], p, floor_share));
+            }
+        }
+        if removed != amount {
+            cx.viol("C12.undelegate_conserve", "undelegation plan does not remove exactly the requested amount", format!("{}: undelegated {} requested {} (batch {})", a.label, removed, amount, po.batch.id));
         }
     }
 }
@@ -1047,6 +1207,23 @@ fn c09_pair(pre: &Chain, a: &Action, out: &Outcome, post: &Chain, cx: &mut Cx) {
                 format!("{} depends on the swap/oracle contracts", action_class(a)),
                 format!("{} with swap {:?} oracle {:?}: {:?} vs {:?}", a.label, sm, om, o2.res.as_ref().map(|f| f.len()).map_err(|e| e.clone()), out.res.as_ref().map(|f| f.len()).map_err(|e| e.clone())),
             );
+        }
+    }
+}
+
+/// "the request is undelegated by the first unbond that arrives after the epoch period": the epoch runs from the
+/// last undelegation (the newest history entry, or the hub's instantiation), whatever happened in between
+fn c09_epoch_step(pre: &Chain, po: &HubObs, a: &Action, out: &Outcome, qo: &HubObs, cx: &mut Cx) {
+    let is_unbond = a.hub_hook().map(|h| h.0 == "unbond").unwrap_or(false);
+    if !is_unbond || !out.ok() {
+        return;
+    }
+    let last = po.history.iter().map(|h| h.time).max().unwrap_or(crate::deploy::GENESIS);
+    if pre.time > last && pre.time - last > po.params.epoch_period {
+        cx.trigger("c09_unbond_after_epoch_checked");
+        cx.validated();
+        if qo.batch.id == po.batch.id || qo.hist(po.batch.id).is_none() {
+            cx.viol("C09.batch_closes", "an unbond that arrived after the epoch period did not undelegate the pending batch", format!("{}: now {} last undelegation {} epoch {}: batch {} still open", a.label, pre.time, last, po.params.epoch_period, po.batch.id));
         }
     }
 }
